@@ -432,6 +432,10 @@ func listOverlap(_ *Ctx, params []Value) (Value, error) {
 	case []string:
 		B, ok := params[1].([]string)
 		if !ok {
+			// the empty list is parsed to a string list
+			if _, isIntList := params[1].([]int64); isIntList && len(A) == 0 {
+				return false, nil
+			}
 			return nil, ParamTypeError(op, typeStrList, params[1])
 		}
 		if len(A)+len(B) < 100 {
